@@ -679,20 +679,32 @@ fn job_c15_impl(out_dir: &str, tier: &str, seed: u64, only: Option<usize>, stack
                 // load of the machine): thread CPU time of the shape against the same shape built at half the size.  Linear work gives a
                 // ratio of 2, quadratic work 4.  Only runs long enough to measure are compared, and an excess has to be
                 // reproduced three times before it is reported.
-                if dt > 0.1 {
-                    let half = &shapes_half[sidx].1[..];
-                    let hc: Vec<usize> = cuts.iter().map(|&c| c / 2).filter(|&c| c > 0 && c < half.len()).collect();
-                    let measure = |inp: &[u8], cs: &[usize]| -> f64 {
-                        let t = cpu_now();
-                        let _ = driver::run(&cfg, inp, cs, &RunOpts { poke_after_error: true, ..RunOpts::default() });
-                        cpu_now() - t
-                    };
-                    let mut ratio = f64::INFINITY;
-                    for _ in 0..3 {
+                // measured in "bare" runs (nothing recorded, no byte copies: the cost is the library's), and only when
+                // both runs are long enough for the clock; an excess must show three times and again one size up
+                let measure = |inp: &[u8], cs: &[usize]| -> f64 {
+                    let t = cpu_now();
+                    let _ = driver::run(&cfg, inp, cs, &RunOpts { bare: true, ..RunOpts::default() });
+                    cpu_now() - t
+                };
+                let half = &shapes_half[sidx].1[..];
+                let hc: Vec<usize> = cuts.iter().map(|&c| c / 2).filter(|&c| c > 0 && c < half.len()).collect();
+                let tf0 = measure(input, &cuts);
+                let th0 = measure(half, &hc);
+                if tf0 > 0.008 && th0 > 0.002 {
+                    let mut ratio = tf0 / th0;
+                    for _ in 0..2 {
+                        if ratio <= 3.5 { break; }
                         let th = measure(half, &hc).max(1e-6);
                         let tf = measure(input, &cuts);
                         ratio = ratio.min(tf / th);
-                        if ratio <= 3.5 { break; }
+                    }
+                    if ratio > 3.5 {
+                        // one size up: the same excess has to be there between the shape and its double
+                        let dbl = build_shapes(scale * 2.0);
+                        let dc: Vec<usize> = cuts.iter().map(|&c| c * 2).filter(|&c| c < dbl[sidx].1.len()).collect();
+                        let mut r2 = f64::INFINITY;
+                        for _ in 0..2 { let tf = measure(input, &cuts).max(1e-6); let td = measure(&dbl[sidx].1, &dc); r2 = r2.min(td / tf); }
+                        ratio = ratio.min(r2);
                     }
                     growth_checks += 1;
                     if ratio > max_ratio { max_ratio = ratio; }
